@@ -28,9 +28,12 @@ import (
 	"runtime"
 	"sort"
 	"strings"
+	"strconv"
 	"sync/atomic"
 	"syscall"
 	"time"
+
+	"github.com/google/pprof/profile"
 
 	"verif/harness/e2e"
 	"verif/harness/fakesql"
@@ -45,6 +48,8 @@ type Req struct {
 	AbortMs  int    `json:"abort_ms"`  // > 0: the client goes away after that many ms
 	Settle   bool   `json:"settle"`    // census request
 	TimeoutS int    `json:"timeout_s"` // per request limit
+	Body     string `json:"body,omitempty"`
+	CT       string `json:"ct,omitempty"`
 }
 
 type Resp struct {
@@ -91,6 +96,8 @@ var permanent = regexp.MustCompile(`InsertServiceV2|numbercache\.NewCache|watchd
 
 const day0 = 1700000000
 
+const pyroType = "process_cpu:cpu:nanoseconds:cpu:nanoseconds"
+
 func preload(w *e2e.World) error {
 	var vals []string
 	for i := 0; i < 40; i++ {
@@ -130,6 +137,22 @@ func preload(w *e2e.World) error {
 		int64(day0+1)*1e6, int64(day0+2)*1e6)
 	if c, b := w.Push("POST", "/tempo/spans", "application/json", []byte(zip), nil); c != 202 {
 		return fmt.Errorf("preload traces: %d %s", c, b)
+	}
+	// one CPU profile with two label sets (Pyroscope /ingest, pprof)
+	for i, pod := range []string{"p1", "p2"} {
+		fn := &profile.Function{ID: 1, Name: "main.f", SystemName: "main.f", Filename: "f.go"}
+		fn2 := &profile.Function{ID: 2, Name: "main.g", SystemName: "main.g", Filename: "g.go"}
+		loc := &profile.Location{ID: 1, Line: []profile.Line{{Function: fn, Line: 1}}}
+		loc2 := &profile.Location{ID: 2, Line: []profile.Line{{Function: fn2, Line: 2}}}
+		pp := &profile.Profile{SampleType: []*profile.ValueType{{Type: "cpu", Unit: "nanoseconds"}}, PeriodType: &profile.ValueType{Type: "cpu", Unit: "nanoseconds"}, Period: 1,
+			Sample:   []*profile.Sample{{Location: []*profile.Location{loc2, loc}, Value: []int64{10 + int64(i)}}, {Location: []*profile.Location{loc}, Value: []int64{5}}},
+			Location: []*profile.Location{loc, loc2}, Function: []*profile.Function{fn, fn2}, TimeNanos: int64(day0+5) * 1e9, DurationNanos: 1e9}
+		var pb bytes.Buffer
+		pp.Write(&pb)
+		path := fmt.Sprintf("/ingest?name=c12svc%%7Bpod%%3D%s%%7D&from=%d&until=%d", pod, day0+5, day0+15)
+		if c, b := w.Push("POST", path, "binary/octet-stream", pb.Bytes(), nil); c >= 300 {
+			return fmt.Errorf("preload profile: %d %s", c, b)
+		}
 	}
 	return nil
 }
@@ -215,7 +238,14 @@ func serve() int {
 		fault.Store(rq.Fault)
 		w.Bridge.Unsupported = nil
 		ctx, cancel := context.WithCancel(context.Background())
-		req, err := http.NewRequestWithContext(ctx, rq.Method, rq.URL, nil)
+		var rbody io.Reader
+		if rq.Body != "" || rq.Method == "POST" {
+			rbody = strings.NewReader(rq.Body)
+		}
+		req, err := http.NewRequestWithContext(ctx, rq.Method, rq.URL, rbody)
+		if err == nil && rq.CT != "" {
+			req.Header.Set("Content-Type", rq.CT)
+		}
 		if err != nil {
 			rs.Code = -1
 			cancel()
@@ -306,7 +336,8 @@ type endpoint struct {
 	Path   string
 	Params map[string]string // valid values
 	Query  string            // name of the query parameter ("" = none)
-	Lang   string            // logql | promql | traceql | none
+	Lang   string            // logql | promql | traceql | pyro | none
+	Post   bool              // Pyroscope querier: POST with a JSON body made of Params (+ the selector under Query)
 }
 
 var start, end = int64(day0 - 10), int64(day0 + 100)
@@ -314,24 +345,35 @@ var start, end = int64(day0 - 10), int64(day0 + 100)
 func endpoints() []endpoint {
 	s, e := fmt.Sprint(start*1e9), fmt.Sprint(end*1e9)
 	ss, es := fmt.Sprint(start), fmt.Sprint(end)
+	ms, me := fmt.Sprint(start*1000), fmt.Sprint(end*1000)
 	return []endpoint{
-		{"loki_query_range", "/loki/api/v1/query_range", map[string]string{"start": s, "end": e, "step": "5", "limit": "100", "direction": "backward"}, "query", "logql"},
-		{"loki_query", "/loki/api/v1/query", map[string]string{"time": e, "limit": "100"}, "query", "logql"},
-		{"loki_labels", "/loki/api/v1/labels", map[string]string{"start": s, "end": e}, "", "none"},
-		{"loki_label_values", "/loki/api/v1/label/app/values", map[string]string{"start": s, "end": e}, "", "none"},
-		{"loki_series", "/loki/api/v1/series", map[string]string{"start": s, "end": e}, "match[]", "logql"},
-		{"prom_query_range", "/api/v1/query_range", map[string]string{"start": ss, "end": es, "step": "15"}, "query", "promql"},
-		{"prom_query", "/api/v1/query", map[string]string{"time": es}, "query", "promql"},
-		{"prom_series", "/api/v1/series", map[string]string{"start": ss, "end": es}, "match[]", "promql"},
-		{"prom_labels", "/api/v1/labels", map[string]string{"start": ss, "end": es}, "", "none"},
-		{"prom_label_values", "/api/v1/label/job/values", map[string]string{"start": ss, "end": es}, "", "none"},
-		{"tempo_trace", "/api/traces/0123456789abcdef0123456789abcdef", map[string]string{"start": ss, "end": es}, "", "none"},
-		{"tempo_search", "/api/search", map[string]string{"start": ss, "end": es, "limit": "20", "minDuration": "1us", "maxDuration": "1h"}, "q", "traceql"},
-		{"tempo_search_tags", "/api/search", map[string]string{"start": ss, "end": es, "limit": "20"}, "tags", "tags"},
-		{"tempo_tags", "/api/search/tags", map[string]string{}, "", "none"},
-		{"tempo_tag_values", "/api/search/tag/k/values", map[string]string{}, "", "none"},
-		{"tempo_v2_tags", "/api/v2/search/tags", map[string]string{"start": ss, "end": es, "q": "{}"}, "", "none"},
-		{"tempo_v2_tag_values", "/api/v2/search/tag/k/values", map[string]string{"start": ss, "end": es, "q": "{}"}, "", "none"},
+		{"loki_query_range", "/loki/api/v1/query_range", map[string]string{"start": s, "end": e, "step": "5", "limit": "100", "direction": "backward"}, "query", "logql", false},
+		{"loki_query", "/loki/api/v1/query", map[string]string{"time": e, "limit": "100"}, "query", "logql", false},
+		{"loki_labels", "/loki/api/v1/labels", map[string]string{"start": s, "end": e}, "", "none", false},
+		{"loki_label_values", "/loki/api/v1/label/app/values", map[string]string{"start": s, "end": e}, "", "none", false},
+		{"loki_series", "/loki/api/v1/series", map[string]string{"start": s, "end": e}, "match[]", "logql", false},
+		{"prom_query_range", "/api/v1/query_range", map[string]string{"start": ss, "end": es, "step": "15"}, "query", "promql", false},
+		{"prom_query", "/api/v1/query", map[string]string{"time": es}, "query", "promql", false},
+		{"prom_series", "/api/v1/series", map[string]string{"start": ss, "end": es}, "match[]", "promql", false},
+		{"prom_labels", "/api/v1/labels", map[string]string{"start": ss, "end": es}, "", "none", false},
+		{"prom_label_values", "/api/v1/label/job/values", map[string]string{"start": ss, "end": es}, "", "none", false},
+		{"tempo_trace", "/api/traces/0123456789abcdef0123456789abcdef", map[string]string{"start": ss, "end": es}, "", "none", false},
+		{"tempo_search", "/api/search", map[string]string{"start": ss, "end": es, "limit": "20", "minDuration": "1us", "maxDuration": "1h"}, "q", "traceql", false},
+		{"tempo_search_tags", "/api/search", map[string]string{"start": ss, "end": es, "limit": "20"}, "tags", "tags", false},
+		{"tempo_tags", "/api/search/tags", map[string]string{}, "", "none", false},
+		{"tempo_tag_values", "/api/search/tag/k/values", map[string]string{}, "", "none", false},
+		{"tempo_v2_tags", "/api/v2/search/tags", map[string]string{"start": ss, "end": es, "q": "{}"}, "", "none", false},
+		{"tempo_v2_tag_values", "/api/v2/search/tag/k/values", map[string]string{"start": ss, "end": es, "q": "{}"}, "", "none", false},
+		// Pyroscope querier (connect protocol over POST, JSON bodies; times in ms)
+		{"pyro_profile_types", "/querier.v1.QuerierService/ProfileTypes", map[string]string{"start": ms, "end": me}, "", "none", true},
+		{"pyro_label_names", "/querier.v1.QuerierService/LabelNames", map[string]string{"start": ms, "end": me}, "matchers", "pyro", true},
+		{"pyro_label_values", "/querier.v1.QuerierService/LabelValues", map[string]string{"start": ms, "end": me, "name": "pod"}, "matchers", "pyro", true},
+		{"pyro_series", "/querier.v1.QuerierService/Series", map[string]string{"start": ms, "end": me}, "matchers", "pyro", true},
+		{"pyro_merge_stacktraces", "/querier.v1.QuerierService/SelectMergeStacktraces", map[string]string{"start": ms, "end": me, "profile_typeID": pyroType}, "label_selector", "pyro", true},
+		{"pyro_select_series", "/querier.v1.QuerierService/SelectSeries", map[string]string{"start": ms, "end": me, "profile_typeID": pyroType, "step": "15"}, "label_selector", "pyro", true},
+		{"pyro_merge_profile", "/querier.v1.QuerierService/SelectMergeProfile", map[string]string{"start": ms, "end": me, "profile_typeID": pyroType}, "label_selector", "pyro", true},
+		{"pyro_profile_stats", "/querier.v1.QuerierService/GetProfileStats", map[string]string{}, "", "none", true},
+		{"pyro_analyze_query", "/querier.v1.QuerierService/AnalyzeQuery", map[string]string{"start": ms, "end": me}, "query", "pyro", true},
 	}
 }
 
@@ -385,6 +427,15 @@ var queryClasses = map[string]map[string]string{
 		"empty":        ``,
 		"bad_regex":    `{.k=~"(("}`,
 		"huge":         `{.k="` + strings.Repeat("z", 200000) + `"}`,
+	},
+	"pyro": {
+		"sel":          `{service_name="c12svc"}`,
+		"sel_regex":    `{service_name=~"c12.*", pod!="zz"}`,
+		"empty_sel":    `{}`,
+		"syntax_error": `{service_name="c12svc"`,
+		"bad_regex":    `{service_name=~"(("}`,
+		"empty":        ``,
+		"huge":         `{service_name="` + strings.Repeat("p", 200000) + `"}`,
 	},
 	"tags": {"tags": `k=v`, "bad": `k="v`, "empty": ``},
 	"none": {"none": ``},
@@ -485,6 +536,45 @@ func build(e endpoint, qtext string, param, class string) string {
 		v.Set(e.Query, qtext)
 	}
 	return e.Path + "?" + v.Encode()
+}
+
+// buildBody renders the JSON body of a Pyroscope querier request: numeric fields as numbers when they look like numbers
+// (so that the parameter classes produce wrong types, negative, zero, huge values), the selector as string or list.
+func buildBody(e endpoint, qtext string, param, class string) string {
+	m := map[string]any{}
+	for p, val := range e.Params {
+		v, present := val, true
+		if p == param {
+			v, present = paramValue(p, val, class, e.Params)
+		}
+		if !present {
+			continue
+		}
+		switch p {
+		case "start", "end", "step":
+			if f, err := strconv.ParseFloat(v, 64); err == nil {
+				m[p] = json.Number(v)
+				_ = f
+			} else {
+				m[p] = v
+			}
+		default:
+			m[p] = v
+		}
+	}
+	switch e.Query {
+	case "matchers":
+		m["matchers"] = []string{qtext}
+	case "label_selector":
+		m["label_selector"] = qtext
+	case "query":
+		m["query"] = qtext
+	}
+	if e.Name == "pyro_select_series" {
+		m["group_by"] = []string{"pod"}
+	}
+	b, _ := json.Marshal(m)
+	return string(b)
 }
 
 // ------------------------------------------------------------------ parent
@@ -606,6 +696,9 @@ func run(casesPath, outPath string, seed int64, nrandom int) int {
 		qt := queryClasses[e.Lang][c.Query]
 		u := build(e, qt, c.Param, c.Class)
 		r := Req{Label: fmt.Sprintf("%s|q=%s|%s=%s|db=%s", c.Endpoint, c.Query, c.Param, c.Class, c.Fault), Method: "GET", URL: u, Fault: c.Fault}
+		if e.Post {
+			r.Method, r.URL, r.Body, r.CT = "POST", e.Path, buildBody(e, qt, c.Param, c.Class), "application/json"
+		}
 		if c.Fault == "client_abort" {
 			r.Fault = "slow_rows"
 			r.AbortMs = 1 + rnd.Intn(20)
@@ -656,6 +749,10 @@ func run(casesPath, outPath string, seed int64, nrandom int) int {
 					}
 				}
 				q = string(b)
+			}
+			if e.Post {
+				reqs = append(reqs, Req{Label: fmt.Sprintf("%s|random#%d", e.Name, i), Method: "POST", URL: e.Path, Body: buildBody(e, q, "", ""), CT: "application/json", Fault: "none"})
+				continue
 			}
 			reqs = append(reqs, Req{Label: fmt.Sprintf("%s|random#%d", e.Name, i), Method: "GET", URL: build(e, q, "", ""), Fault: "none"})
 		}
